@@ -1,6 +1,6 @@
 (* C14_Proofs4.v — "a statement text is prepared at most once per cache generation":
    counting invariants linking Prepare calls, entries, deletions, upgrades and Reset/Close. *)
-From Verif Require Import Base C14_Model C14_Check C14_Proofs2.
+From Verif Require Import Base C14_Model C14_Count C14_Proofs2.
 
 Definition ent_is (q : nat) (b : bool) (e : entry) : bool := (e_q e =? q) && Bool.eqb (e_tx e) b.
 Definition creates (q : nat) (b : bool) (l : list entry) : nat := length (filter (ent_is q b) l).
